@@ -8,6 +8,7 @@ import StepModel.RegistryModel
 import StepModel.Accessors
 import StepModel.GenCxxRulesLemmas
 import StepModel.GenCxxAgree
+import StepModel.GenCxxDedup
 /-!
 # C02 — generated dictionary and classes mirror the EXPRESS schema
 
@@ -410,43 +411,46 @@ theorem C02_flags_redefined_right_supertype :
               (⟨"u", "z", .E⟩, false, false), (⟨"w", "q.x", .R⟩, false, false)] := by
   decide
 
-/-- **Closed form of the `MakeDerived` call list for ANY supertype graph** (several supertypes, shared ancestors, any depth):
-    `populateAttrList` with its search offsets and `dedupList` come down to a recursion over the supertype lists on attribute
-    names, `callInfo`: the FIRST supertype in SUBTYPE OF order that knows the name says who created the attribute and whether it
-    is marked already; the entity's own attributes of that name add their mark or create it.  A call `MakeDerived( x, cr )` is
-    emitted iff `callInfo` answers `(cr, true)`.  Hypotheses: the schema is resolved (`WF`); `KeyByName` — in the list of `n` an
-    attribute name has one creator; and two decidable conditions on the schema under which the creator-aware search of fix C02-8
-    finds what the search by name finds (`derivedCalls_agree`): `RedeclResolves` (a redeclaration `SELF\sup.x` stands in a subtype
-    of `sup`, and `sup` or a supertype declares `x` — what check-express demands) and `RedeclNamesOneLine` (the entities that
-    declare an `x` that is redeclared somewhere are `sup` or supertypes of `sup`).  The excluded shape, one name declared in two
-    lines of supertypes, is `C02_derived_calls_two_creators_witness`. -/
-theorem C02_derived_calls_closed_form {s : Schema} {rank : String → Nat} (wf : WF s rank) (rr : RedeclResolves s)
-    (r1 : RedeclNamesOneLine s) (n x cr : String) (hk : KeyByName (seg s (fuelOf s) n)) :
-    (x, cr) ∈ derivedCalls s n ↔ callInfo s (fuelOf s) n x = some (cr, true) := by
-  rw [derivedCalls_agree wf rr r1 n]; exact derivedCalls_closed s n x cr hk
+/-- Tie: `dedupList` carries the "derived by" mark of a repeated (attribute, creator) entry over to the entry it keeps
+    (regenerated from ordered_attrs.cc; before fix C02-11 the mark was dropped with the entry, and this does not elaborate). -/
+theorem C02_dedup_keeps_derivation : dedupMergesDeriver = true := rfl
 
-/-- The closed form with hypotheses on the schema only, all decidable but `WF`: for every resolved schema in which no attribute
-    name is declared twice (`DeclaredOnce`; redeclarations `SELF\sup.x` are not declarations) and every redeclaration resolves
-    (`RedeclResolves`: what check-express demands), for every entity `n` with any supertype graph: `MakeDerived( x, cr )` is
-    emitted iff `callInfo` answers `(cr, true)`. -/
+/-- **Closed form of the `MakeDerived` call list for ANY supertype graph** (several supertypes, shared ancestors, any depth), with
+    no hypothesis on attribute names: `populateAttrList` with its search offsets and `dedupList` come down to a recursion over
+    the supertype lists, `derivedIn`: `MakeDerived( x, cr )` is emitted for `n` iff a supertype's list already has `(x, cr)`
+    marked, or the first entry named `x` in `n`'s own list — `callInfo`: the FIRST supertype in SUBTYPE OF order that knows the
+    name says who created it, the own attributes of that name add their mark or create it — was created by `cr` and ends up
+    marked.  Hypotheses: resolved schema (`WF`) and the two decidable conditions under which the creator-aware search of fix
+    C02-8 finds what the search by name finds (`RedeclResolves`: what check-express demands; `RedeclNamesOneLine`: fails on the
+    shape of `C02_derived_calls_two_creators_witness`). -/
+theorem C02_derived_calls_closed_form {s : Schema} {rank : String → Nat} (wf : WF s rank) (rr : RedeclResolves s)
+    (r1 : RedeclNamesOneLine s) (n x cr : String) :
+    (x, cr) ∈ derivedCalls s n ↔ derivedIn s (fuelOf s) n x cr = true := by
+  rw [derivedCalls_agree wf rr r1 n]; exact derivedCallsN_closed C02_dedup_keeps_derivation s n x cr
+
+/-- The closed form with hypotheses on the schema only, all decidable but `WF`: no attribute name is declared twice
+    (`DeclaredOnce`; redeclarations `SELF\sup.x` are not declarations) and every redeclaration resolves. -/
 theorem C02_derived_calls_closed_form_declared_once {s : Schema} {rank : String → Nat} (wf : WF s rank) (rr : RedeclResolves s)
     (d1 : DeclaredOnce s) (n x cr : String) :
-    (x, cr) ∈ derivedCalls s n ↔ callInfo s (fuelOf s) n x = some (cr, true) :=
-  C02_derived_calls_closed_form wf rr (oneLine_of_declaredOnce rr d1) n x cr (keyByName_of_declaredOnce wf rr d1 n)
+    (x, cr) ∈ derivedCalls s n ↔ derivedIn s (fuelOf s) n x cr = true :=
+  C02_derived_calls_closed_form wf rr (oneLine_of_declaredOnce rr d1) n x cr
 
-/-- the second-supertype deviation, from the closed form: for `u SUBTYPE OF (c, b)` the first supertype that knows `x` is `c`,
-    whose line does not derive it; for `u SUBTYPE OF (b, c)` it is `b`, which does -/
-theorem C02_derived_calls_first_supertype_decides :
+/-- A derivation on ANY supertype path counts, whatever the order of the SUBTYPE OF list (fix C02-11): `b` redeclares `SELF\a.x`
+    in its DERIVE clause, `c` does not; both `u SUBTYPE OF (c, b)` and `u SUBTYPE OF (b, c)` get `MakeDerived( "x", "a" )`.
+    With the mark dropped by `dedupList` (the code before the fix) the first supertype decided: `(c, b)` got no call — the
+    instance then refused the conforming record `U(*)` (corpus `ok-redeclaration-on-either-supertype-of-a-diamond`). -/
+theorem C02_derived_calls_any_supertype_path :
     let sch (sups : List String) : Schema :=
       { name := "w2", entities := [
           { name := "a", attrs := [{ name := "x", type := .base .integer }] },
           { name := "b", supers := ["a"], attrs := [{ name := "x", redecl := some "a", kind := .derived, type := .base .integer }] },
           { name := "c", supers := ["a"] },
           { name := "u", supers := sups }] }
-    callInfo (sch ["c", "b"]) 5 "u" "x" = some ("a", false) ∧ callInfo (sch ["b", "c"]) 5 "u" "x" = some ("a", true) := by
+    derivedCalls (sch ["c", "b"]) "u" = [("x", "a")] ∧ derivedCalls (sch ["b", "c"]) "u" = [("x", "a")] ∧
+    ((dedupOAM false [] (populate (sch ["c", "b"]) 5 "u" [])).filter (·.deriver)).map (fun o => (o.name, o.creator)) = [] := by
   decide
 
-/-- two supertypes that both have an attribute `x` (the shape `KeyByName` excludes), `w` derives `SELF\q.x`: the search by name
+/-- two supertypes that both have an attribute `x` (the shape `RedeclNamesOneLine` excludes), `w` derives `SELF\q.x`: the search by name
     (the code before fix C02-8) calls `MakeDerived( "x", "p" )` — the wrong attribute; the creator-aware search calls
     `MakeDerived( "x", "q" )`.  Confirmed on the real code (corpus d9). -/
 theorem C02_derived_calls_two_creators_witness :
@@ -463,7 +467,7 @@ theorem C02_derived_calls_two_creators_witness :
     of any length: exactly those that are redeclared in a DERIVE clause further down the chain — the set Part 21 11.2.6 intends
     (`DerivedCall` with `marksDerived`; an explicit redeclaration does not count since fix C02-7).
     Partial: excluded are instances with an entity of several supertypes in their ancestry, where a derivation on a non-principal
-    path is lost (`C02_flags_second_supertype_witness`); `KeysNodup`: (owner, registered name) tells the attributes apart;
+    path is marked by the entity's own constructor (`C02_flags_second_supertype_derivation`) — the chain invariant does not cover it; `KeysNodup`: (owner, registered name) tells the attributes apart;
     `WF`, `RedeclResolves`, `RedeclNamesOneLine`: resolved schema, redeclarations resolve, a redeclared name is declared in one line
     (decidable; under them the creator-aware search of `populateAttrList` finds what the search by name finds). -/
 theorem C02_flags_derive_chain_partial {s : Schema} {n : String} {c : List Entity} (h : IsChain s n c)
@@ -586,9 +590,9 @@ theorem C02_flags_part_frame (s : Schema) (f : Nat) (q : String) (st : IState) :
 
 /-- **The rule along the principal line**, for every schema and every entity `n` with supertypes `p :: ps`: an attribute that
     the principal supertype's constructor put on the instance is flagged derived after `n`'s constructor iff it was after
-    `p`'s constructor, or `n`'s own `MakeDerived` calls name it.  The other supertypes `ps` contribute nothing — which is the
-    exact content of the second-supertype deviation (`C02_flags_second_supertype_witness` is an instance: there
-    `derivedCalls` of `u` is empty because `dedupList` keeps the unmarked first copy).
+    `p`'s constructor, or `n`'s own `MakeDerived` calls name it.  The part constructors of the other supertypes `ps` contribute
+    nothing: a derivation on their paths reaches the instance through `n`'s own calls only (`derivedCalls`, whose closed form
+    `derivedIn` takes every supertype's list into account since fix C02-11 — `C02_flags_second_supertype_derivation`).
     `HeadKeyInj`: the head's attributes are told apart by (owner, registered name). -/
 theorem C02_flags_derive_principal_rule (s : Schema) (f : Nat) (n p : String) (ps : List String) (e : Entity)
     (hE : s.findE n = some e) (hs : e.supers = p :: ps)
@@ -639,18 +643,35 @@ theorem C02_flags_derive_principal_rule (s : Schema) (f : Nat) (n p : String) (p
   have := (applyDerived_on_head (derivedCalls s n) mid hkm).2.2 j (by rw [← q1]; exact hjh) a hsm
   rw [this, hdm]
 
-/-- Deviation 2: a derivation on a NON-principal path is lost.  `u SUBTYPE OF (c, b)`, `b` redeclares `SELF\a.x` as derived:
-    in an instance of `u` the attribute `a.x` is not flagged (the part constructor of `b` marks its own copy, which the head
-    rejected as a duplicate; and `dedupList` drops the marked `orderedAttr`), whereas for `u SUBTYPE OF (b, c)` it is. -/
-theorem C02_flags_second_supertype_witness :
+/-- A derivation on a NON-principal path reaches the instance (since fix C02-11): `u SUBTYPE OF (c, b)`, `b` redeclares `SELF\a.x`
+    as derived.  The part constructor of `b` marks its own copy of `a.x`, which the head rejected as a duplicate — but the
+    constructor of `u` itself is given `MakeDerived( "x", "a" )` (`C02_derived_calls_any_supertype_path`) and marks the head's.
+    Both orders of the SUBTYPE OF list flag `a.x`; run on the real code (corpus `ok-redeclaration-on-either-supertype-of-a-diamond`:
+    `#1=V1(*,3)` is read and written back as it is for both). -/
+theorem C02_flags_second_supertype_derivation :
     let sch (sups : List String) : Schema :=
       { name := "w2", entities := [
           { name := "a", attrs := [{ name := "x", type := .base .integer }] },
           { name := "b", supers := ["a"], attrs := [{ name := "x", redecl := some "a", kind := .derived, type := .base .integer }] },
           { name := "c", supers := ["a"] },
           { name := "u", supers := sups }] }
-    instanceFlags (sch ["c", "b"]) "u" = some [(⟨"a", "x", .E⟩, false, false)] ∧
+    instanceFlags (sch ["c", "b"]) "u" = some [(⟨"a", "x", .E⟩, true, false)] ∧
     instanceFlags (sch ["b", "c"]) "u" = some [(⟨"a", "x", .E⟩, true, false)] := by
+  decide
+
+/-- What remains order dependent is `_redefAttr`: `b` redeclares `SELF\a.x : INTEGER` explicitly.  In an instance of `u SUBTYPE OF (c, b)`
+    the attribute `a.x` is not wired to the redefining attribute (the part constructor of `b` wires its own copy of `a.x`, which
+    the head rejected as a duplicate), for `u SUBTYPE OF (b, c)` it is.  The implementation agrees with the model on both
+    (corpus `d1-diamond-explicit-redeclaration`, and the generated diamonds). -/
+theorem C02_flags_redef_second_supertype_witness :
+    let sch (sups : List String) : Schema :=
+      { name := "w3", entities := [
+          { name := "a", attrs := [{ name := "x", type := .base .number }] },
+          { name := "b", supers := ["a"], attrs := [{ name := "x", redecl := some "a", type := .base .integer }] },
+          { name := "c", supers := ["a"] },
+          { name := "u", supers := sups }] }
+    instanceFlags (sch ["c", "b"]) "u" = some [(⟨"a", "x", .E⟩, false, false), (⟨"b", "a.x", .R⟩, false, false)] ∧
+    instanceFlags (sch ["b", "c"]) "u" = some [(⟨"a", "x", .E⟩, false, true), (⟨"b", "a.x", .R⟩, false, false)] := by
   decide
 
 /-! ## emission order -/
